@@ -7,7 +7,7 @@ import os
 import time
 from pathlib import Path
 
-from experimaestro import Meta, Param, Task
+from experimaestro import Config, Meta, Param, Task
 
 
 def _append(path, line):
@@ -31,6 +31,12 @@ def _body(tag, ctl: Path, maxwait: float):
             _append(ctl / "events.log", f"end {tag} {pid} timeout")
             raise SystemExit(7)
         time.sleep(0.01)
+    hold = ctl / f"hold.{tag}"
+    if hold.exists():
+        try:
+            time.sleep(float(hold.read_text() or "0"))
+        except ValueError:
+            pass
     if (ctl / f"fail.{tag}").exists():
         # consume one failure token (a job may be asked to fail n times)
         try:
@@ -42,14 +48,30 @@ def _body(tag, ctl: Path, maxwait: float):
             _append(log, f"end {pid} fail")
             _append(ctl / "events.log", f"end {tag} {pid} fail")
             raise RuntimeError("asked to fail")
-    hold = ctl / f"hold.{tag}"
-    if hold.exists():
+    # a notification URL that accepts connections and never answers (the end-of-job report then hangs)
+    silent = ctl / "silent_url"
+    if silent.exists():
         try:
-            time.sleep(float(hold.read_text() or "0"))
-        except ValueError:
+            d = Path.cwd() / ".notifications"
+            d.mkdir(exist_ok=True)
+            (d / "vsilent").write_text(silent.read_text().strip())
+        except OSError:
             pass
+    # the process goes on working after its body has returned (non-daemon thread): it logs "late" at the very end
+    linger = ctl / f"linger.{tag}"
+    if linger.exists():
+        import threading
+        secs = float(linger.read_text() or "0")
+
+        def late():
+            time.sleep(secs)
+            _append(ctl / "events.log", f"late {tag} {pid}")
+        threading.Thread(target=late, daemon=False).start()
     _append(log, f"end {pid} ok")
     _append(ctl / "events.log", f"end {tag} {pid} ok")
+    if (ctl / f"exit0.{tag}").exists() or (ctl / "exit0.all").exists():
+        # a body that leaves through sys.exit(0) (a wrapped command line entry point) instead of returning
+        raise SystemExit(0)
 
 
 class Latched(Task):
@@ -86,3 +108,24 @@ class Counted(Task):
 
     def execute(self):
         _append(self.ctl / f"count.{self.tag}", f"run {os.getpid()}")
+
+
+class OutCfg(Config):
+    """the output configuration of SlowOut"""
+    pass
+
+
+class SlowOut(Task):
+    """a task whose (user-defined) task_outputs takes `delay` seconds: the window in which the job is registered and
+    its output not yet known"""
+    tag: Param[int]
+    delay: Meta[float] = 0.6
+    ctl: Meta[Path]
+
+    def task_outputs(self, dep):
+        time.sleep(self.delay)
+        return dep(OutCfg())
+
+    def execute(self):
+        _append(self.ctl / "events.log", f"begin {self.tag} {os.getpid()}")
+        _append(self.ctl / "events.log", f"end {self.tag} {os.getpid()} ok")
